@@ -4,6 +4,7 @@ import json, os, subprocess
 V = os.path.dirname(os.path.dirname(os.path.abspath(__file__)))
 BASE = json.load(open("/root/.vp/BASELINE.json"))
 
+T = "Lean 4 proof over a hand-written model + differential correspondence with the Go implementation"
 CLAIMED = {
  "C11": dict(
    text="Lean proof (all byte strings, any length) that escaping is inverted by unescaping for every escaper of enc.go, plus per-kind "
